@@ -74,6 +74,7 @@ StopStatus == IF g.sp = "idle" THEN S_NOT ELSE IF g.sp = "done" THEN S_DONE ELSE
 
 Obs == [pool   |-> pool,
         dial   |-> misc.dial,
+        never  |-> misc.never,
         stop   |-> StopStatus,
         calls  |-> [i \in 1..Len(acts) |-> [k |-> acts[i].k, m |-> acts[i].m, st |-> cs[acts[i].k].st]],
         reopen |-> misc.reopen]
@@ -474,6 +475,15 @@ BmTop ==
      ELSE g' = G("bmg", "cflock") /\ UNCHANGED bat                        \* BlockFilterMatches :330
   /\ UNCHANGED <<err, mtx, ux, cs>> /\ UxFrame
   /\ Finish(I("BmTop"))
+
+\* a scan whose only block is in the block cache (start block = tip, cached)
+\* needs no fetch at all: NotifyUnspentAndUnfound :392 and back to the wait
+BmCached ==
+  /\ g.bmg = "top" /\ ~Closed("U") /\ ux.mode = 1
+  /\ g' = G("bmg", "cond")
+  /\ ux' = [ux EXCEPT !.pq = FALSE, !.res = "ok"]
+  /\ UNCHANGED <<bat, err, mtx, cs>> /\ UxFrame
+  /\ Finish(I("BmCached"))
 
 BmCfLock ==
   /\ g.bmg = "cflock" /\ mtx = "free"
@@ -930,7 +940,10 @@ Init ==
            squit |-> {}, rq |-> "none", ans |-> "none"]
   /\ acts = <<>>
   /\ cs = [k \in AllKinds |-> [st |-> C_NONE, pc |-> "off"]]
-  /\ misc = [pdisc |-> FALSE, reopen |-> R_NOT, rsn |-> 0, rretry |-> FALSE, dial |-> IF g.dial = "dialing" THEN 1 ELSE 0]
+  /\ misc = [pdisc |-> FALSE, reopen |-> R_NOT, rsn |-> 0, rretry |-> FALSE, dial |-> IF g.dial = "dialing" THEN 1 ELSE 0,
+             \* no peer has ever completed a handshake since Start: the goroutine that
+             \* runs the cfHandler is still waiting for firstPeerSignal (blockmanager.go:345)
+             never |-> IF pool = P_EMPTY /\ g.cfh = "first" THEN 1 ELSE 0]
   /\ abs = AbsInit
   /\ act = [op |-> "Init", k |-> 0, m |-> 0, cls |-> 0, res |-> "ok", at |-> NoAt]
   /\ viol = {}
@@ -948,7 +961,7 @@ Internal ==
   \/ \E r \in {"ok", "timeout", "disc", "cancel"} : WorkerEnd(r)
   \/ WorkerQuit
   \/ GetBlockRet \/ GetCFLock \/ GetCFHit \/ GetCFGot \/ GetCFRet
-  \/ GetUtxoRet \/ BmSignal \/ BmWake \/ BmTop \/ BmCfLock
+  \/ GetUtxoRet \/ BmSignal \/ BmWake \/ BmTop \/ BmCached \/ BmCfLock
   \/ \E b \in BOOLEAN : BmGot(b)
   \/ SendTxSubmit \/ BchBcastEnd \/ SendTxRet \/ BchRebroadcast \/ RbEnd \/ BchQuit \/ BchCancelSub
   \/ Register(K_SUB, "u", "read") \/ Register(K_RESCAN, "r", "cur") \/ Registered
@@ -1074,6 +1087,6 @@ State == <<pool>>
          \o <<99>>
          \o [i \in 1..7 |-> 100 * cs[i].st + Ix(PCS, cs[i].pc)]
          \o <<Ix(PCS, g.flk), Ix(PCS, sb.rq), Ix(PCS, sb.ans),
-              B2I(misc.pdisc), misc.reopen, misc.rsn, B2I(misc.rretry), misc.dial, B2I(abs.stopped)>>
+              B2I(misc.pdisc), misc.reopen, misc.rsn, B2I(misc.rretry), misc.never, misc.dial, B2I(abs.stopped)>>
 View  == <<pool, q, g, bat, err, tries, w, mtx, ux, bc, sb, acts, cs, misc, abs>>
 =============================================================================
